@@ -1,48 +1,51 @@
 // Verification harness for C18 (a monitoring subscriber reconstructs the exact Adj-RIB-In).
 // Compiled into rustybgpd's unit-test binary only with
-// `--cfg osrg_rustybgp_verif --cfg verif_c18|verif_all`; child module of `crate::event::verif_event`.
+// `--cfg osrg_rustybgp_verif --cfg verif_c18|verif_all`; grand-child of `crate::event`.
 //
 // A case (lean/Rbgp/Monitor/Codec.lean syntax)
 //   (case (cfg <nshards> <gran> <limit>) (threads (w <op>*)|(s <op>*) ...) (sched <n>*))
-// is run against a REAL `TableManager`: one OS thread per case thread, all of them driven by a
-// deterministic scheduler that lets exactly one thread run between two scheduling points.  The
-// scheduling points inside the code under test are the cfg-guarded
-// `table_manager::verif_sched::point` calls (before every shard-lock acquisition, after every
-// subscriber-list load, after `subscribe`'s rcu); the harness adds one before every operation
-// (and between `unregister_peer` and `peer_down` of a session teardown).
+// is run against a REAL `TableManager`, a REAL `Global` peer table and REAL `PeerSession`s: one OS
+// thread per case thread, all of them driven by a deterministic scheduler that lets exactly one
+// thread run between two scheduling points.  The scheduling points inside the code under test are
+// the cfg-guarded `table_manager::verif_sched` points (LOCK before every shard-lock acquisition,
+// ACQUIRED when it returned, LOADED after every subscriber-list load, UNLOCKED when the guard has
+// been dropped, REGISTERED after `subscribe`'s rcu, NOTIFY at the start of peer_up/peer_down);
+// the harness adds one before every operation.
 //
-//   writer thread i (peer 10.0.0.(i+1)):  up | down | (ins k j pid a) | (rem k j pid) | sr
-//                                         | (pol none|reject|tag) | gdown | purge
-//   subscriber thread:                    (sub t|f) | unsub
-//
-// Observation: per-thread return values, and per subscription the received `BgpEvent` stream
-// projected per universe key (keys in order of first mention in the case), plus the final
-// `iter_reach` / `iter_reach_post` of every shard, plus what the real bmp.rs consumer functions
-// (`apply_snapshot`, `track_peer_up/down`) make of the stream.
-#![allow(dead_code)]
+//   writer thread i (peer 10.0.0.(i+1)):
+//     up      session_addrs := Some (apply_outputs, Established arm), then tables.peer_up
+//     down    session_addrs := None (apply_outputs, SessionDown arm), then the REAL
+//             PeerSession::finish_session (unregister_peer on every shard, then peer_down)
+//     gdown   the same with GR negotiated for both families (routes retained as stale)
+//     (ins k j pid a) (rem k j pid)   insert_route / remove_route
+//     (sr p)  soft_reset_in(peer p)        (pol none|reject|tag)  import_policy.store
+//     purge / dropfam / llgr / lpurge      drop_stale_families / drop_families / mark_llgr_stale /
+//                                          drop_llgr_stale_families
+//   subscriber thread:
+//     (sub t|f) | unsub    TableManager::subscribe / unsubscribe; the received events are the observation
+//     bmp                  the REAL BmpClient::serve on a loopback TCP connection; the BMP messages
+//                          written on the connection are the observation
+#![allow(dead_code, unused_imports)]
 
-use std::net::{IpAddr, Ipv4Addr};
-use std::sync::atomic::AtomicU64;
-use std::sync::{Arc, Condvar, Mutex, OnceLock};
-use std::time::Duration;
+use super::super::*;
 
-use rustybgp_packet::{self as packet, Family, bgp};
-use rustybgp_table as table;
+use std::sync::atomic::{AtomicBool, AtomicU64, AtomicUsize};
+use std::sync::{Condvar, Mutex, OnceLock};
+use std::time::Duration as StdDuration;
 
-use crate::bmp::verif_c18_bmp::{Consumer, Wire};
-use crate::table_manager::{
-    BgpEvent, PeerDownData, PeerUpData, Subscription, TableManager, verif_sched,
-};
+use crate::bmp::verif_c18_bmp::{Consumer, Serve, Wire, WireMsg};
+use crate::table_manager::{BgpEvent, PeerDownData, PeerUpData, Subscription, verif_sched};
 
 #[path = "/verif/harness/common/sexp.rs"]
 mod sexp;
 use sexp::Term;
 
 const MAX_SHARDS: usize = 3;
-const MAX_IDX: usize = 3;
+const MAX_IDX: usize = 3; // index 2 of a shard is an IPv6 prefix
 const MAX_PID: u64 = 3;
 const MAX_THREADS: usize = 5;
 const OP: u32 = 0; // harness-level scheduling point (before an operation)
+const FAMS: [Family; 2] = [Family::IPV4, Family::IPV6];
 
 // ---------------------------------------------------------------- case
 #[derive(Clone, Copy, PartialEq, Eq, Hash, Debug)]
@@ -64,13 +67,17 @@ enum Pol {
 enum Op {
     Up,
     Down,
+    GDown,
     Ins(usize, usize, u32, u32),
     Rem(usize, usize, u32),
-    Sr,
+    Sr(usize),
     Pol(Pol),
-    GDown,
     Purge,
+    DropFam,
+    Llgr,
+    LPurge,
     Sub(bool),
+    Bmp,
     Unsub,
 }
 
@@ -90,8 +97,12 @@ fn parse_case(line: &str) -> Option<Case> {
     if nshards == 0 || nshards > MAX_SHARDS || gran > 1 || limit > 9 {
         return None;
     }
+    let tl = threads.tagged("threads")?;
+    if tl.is_empty() || tl.len() > MAX_THREADS {
+        return None;
+    }
     let mut ths = Vec::new();
-    for th in threads.tagged("threads")? {
+    for (me, th) in tl.iter().enumerate() {
         let l = th.as_list()?;
         let kind = l.first()?.as_atom()?;
         let writer = match kind {
@@ -104,10 +115,22 @@ fn parse_case(line: &str) -> Option<Case> {
             let op = match (o.head()?, o) {
                 ("up", Term::Atom(_)) => Op::Up,
                 ("down", Term::Atom(_)) => Op::Down,
-                ("sr", Term::Atom(_)) => Op::Sr,
+                ("sr", Term::Atom(_)) => Op::Sr(me),
                 ("gdown", Term::Atom(_)) => Op::GDown,
                 ("purge", Term::Atom(_)) => Op::Purge,
+                ("dropfam", Term::Atom(_)) => Op::DropFam,
+                ("llgr", Term::Atom(_)) => Op::Llgr,
+                ("lpurge", Term::Atom(_)) => Op::LPurge,
                 ("unsub", Term::Atom(_)) => Op::Unsub,
+                ("bmp", Term::Atom(_)) => Op::Bmp,
+                ("sr", _) => {
+                    let [p] = o.tagged("sr")? else { return None };
+                    let p = p.as_u64()? as usize;
+                    if p >= tl.len() {
+                        return None;
+                    }
+                    Op::Sr(p)
+                }
                 ("ins", _) => {
                     let [k, j, p, a] = o.tagged("ins")? else { return None };
                     let (k, j, p, a) = (k.as_u64()?, j.as_u64()?, p.as_u64()?, a.as_u64()?);
@@ -139,7 +162,7 @@ fn parse_case(line: &str) -> Option<Case> {
                 }
                 _ => return None,
             };
-            let is_sub_op = matches!(op, Op::Sub(_) | Op::Unsub);
+            let is_sub_op = matches!(op, Op::Sub(_) | Op::Unsub | Op::Bmp);
             if is_sub_op == writer {
                 return None;
             }
@@ -147,7 +170,22 @@ fn parse_case(line: &str) -> Option<Case> {
         }
         ths.push((writer, ops));
     }
-    if ths.is_empty() || ths.len() > MAX_THREADS {
+    // (sr p) must name a writer thread
+    for (_, ops) in &ths {
+        for o in ops {
+            if let Op::Sr(p) = o
+                && !ths[*p].0
+            {
+                return None;
+            }
+        }
+    }
+    // a BMP connection of a peer without ADD-PATH carries no path ids: such cases use path id 0 only
+    let has_bmp = ths.iter().any(|(_, ops)| ops.iter().any(|o| matches!(o, Op::Bmp)));
+    let has_pid = ths
+        .iter()
+        .any(|(_, ops)| ops.iter().any(|o| matches!(o, Op::Ins(_, _, p, _) | Op::Rem(_, _, p) if *p != 0)));
+    if has_bmp && has_pid {
         return None;
     }
     let mut sc = Vec::new();
@@ -188,12 +226,25 @@ fn peer_of(a: &IpAddr) -> Option<usize> {
         _ => None,
     }
 }
-fn nlri_of_octet(x: u8) -> packet::Nlri {
-    packet::Nlri::V4(bgp::Ipv4Net { addr: Ipv4Addr::new(10, x, 0, 0), mask: 16 })
+/// prefix number x: 0..=127 IPv4 10.x.0.0/16, 128..=255 IPv6 2001:db8:x::/48
+fn nlri_of(x: u8) -> (Family, packet::Nlri) {
+    if x < 128 {
+        (Family::IPV4, packet::Nlri::V4(bgp::Ipv4Net { addr: Ipv4Addr::new(10, x, 0, 0), mask: 16 }))
+    } else {
+        (
+            Family::IPV6,
+            packet::Nlri::V6(bgp::Ipv6Net { addr: Ipv6Addr::new(0x2001, 0xdb8, x as u16, 0, 0, 0, 0, 0), mask: 48 }),
+        )
+    }
 }
-fn octet_of(n: &packet::Nlri) -> Option<u8> {
+fn prefix_no(n: &packet::Nlri) -> Option<(Family, u8)> {
     match n {
-        packet::Nlri::V4(n) if n.mask == 16 && n.addr.octets()[0] == 10 => Some(n.addr.octets()[1]),
+        packet::Nlri::V4(n) if n.mask == 16 && n.addr.octets()[0] == 10 && n.addr.octets()[1] < 128 => {
+            Some((Family::IPV4, n.addr.octets()[1]))
+        }
+        packet::Nlri::V6(n) if n.mask == 48 && n.addr.segments()[0] == 0x2001 && n.addr.segments()[2] >= 128 => {
+            Some((Family::IPV6, n.addr.segments()[2] as u8))
+        }
         _ => None,
     }
 }
@@ -210,19 +261,35 @@ fn new_source(p: usize) -> Arc<table::Source> {
 fn attrs_of(a: u32) -> Arc<Vec<packet::Attribute>> {
     Arc::new(vec![
         packet::Attribute::new_with_value(packet::Attribute::ORIGIN, 0).unwrap(),
+        packet::Attribute::empty_as_path(),
         packet::Attribute::new_with_value(packet::Attribute::MULTI_EXIT_DESC, a).unwrap(),
     ])
 }
-/// attribute list -> model value: MED (+1000 when the `tag` policy added LOCAL_PREF)
-fn val_of(attrs: &[packet::Attribute]) -> u64 {
+/// the next hop announced with attribute value `a`
+fn nexthop_of(f: Family, a: u32) -> bgp::Nexthop {
+    let x = (a % 5 + 1) as u8;
+    if f == Family::IPV6 {
+        bgp::Nexthop::V6(Ipv6Addr::new(0x2001, 0xdb8, 9, 0, 0, 0, 0, x as u16))
+    } else {
+        bgp::Nexthop::V4(Ipv4Addr::new(10, 9, 0, x))
+    }
+}
+/// (attributes, next hop) -> model value: MED + 10000 * next-hop number (+1000 when the `tag`
+/// policy added LOCAL_PREF); anything unexpected gives a value the model never produces
+fn val_of(attrs: &[packet::Attribute], nh: Option<bgp::Nexthop>) -> u64 {
     let med = attrs
         .iter()
         .find(|a| a.code() == packet::Attribute::MULTI_EXIT_DESC)
         .and_then(|a| a.value());
     let lp = attrs.iter().any(|a| a.code() == packet::Attribute::LOCAL_PREF);
+    let nhn: u64 = match nh {
+        Some(bgp::Nexthop::V4(a)) if a.octets()[..3] == [10, 9, 0] => a.octets()[3] as u64,
+        Some(bgp::Nexthop::V6(a)) if a.segments()[..3] == [0x2001, 0xdb8, 9] => a.segments()[7] as u64,
+        _ => 77,
+    };
     match med {
-        Some(m) => m as u64 + if lp { 1000 } else { 0 },
-        None => 9999,
+        Some(m) => m as u64 + 10000 * nhn + if lp { 1000 } else { 0 },
+        None => 999_999,
     }
 }
 fn policy_of(p: Pol) -> Option<Arc<table::PolicyAssignment>> {
@@ -254,8 +321,8 @@ fn policy_of(p: Pol) -> Option<Arc<table::PolicyAssignment>> {
     }
 }
 
-/// For `n` shards: `tab[k][j]` = second octet x such that 10.x.0.0/16 is dealt to shard k by the
-/// real `TableManager::dealer` (found by inserting into a scratch manager and looking where it went).
+/// For `n` shards: `tab[k][j]` = prefix number dealt to shard k by the real `TableManager::dealer`
+/// (j = 0, 1: IPv4; j = 2: IPv6), found by inserting into a scratch manager and looking where it went.
 fn prefix_table(n: usize) -> &'static Vec<Vec<u8>> {
     static TABS: OnceLock<Vec<Vec<Vec<u8>>>> = OnceLock::new();
     let all = TABS.get_or_init(|| {
@@ -263,30 +330,26 @@ fn prefix_table(n: usize) -> &'static Vec<Vec<u8>> {
             .map(|n| {
                 let tm = TableManager::new(n);
                 let src = new_source(0);
-                let mut tab: Vec<Vec<u8>> = vec![Vec::new(); n];
+                let mut v4: Vec<Vec<u8>> = vec![Vec::new(); n];
+                let mut v6: Vec<Vec<u8>> = vec![Vec::new(); n];
                 for x in 0..=255u8 {
-                    tm.insert_route(
-                        src.clone(),
-                        Family::IPV4,
-                        packet::PathNlri::new(nlri_of_octet(x)),
-                        Some(bgp::Nexthop::V4(Ipv4Addr::new(10, 0, 0, 1))),
-                        attrs_of(1),
-                        None,
-                        0,
-                    );
+                    let (f, nlri) = nlri_of(x);
+                    tm.insert_route(src.clone(), f, packet::PathNlri::new(nlri), Some(nexthop_of(f, 1)), attrs_of(1), None, 0);
                     for (k, sh) in tm.shards.iter().enumerate() {
                         let t = sh.lock().unwrap();
-                        let here = t.rtable.iter_reach(Family::IPV4).any(|r| octet_of(&r.net.nlri) == Some(x));
-                        if here && tab[k].len() < MAX_IDX {
-                            tab[k].push(x);
+                        let here = t.rtable.iter_reach(f).any(|r| prefix_no(&r.net.nlri) == Some((f, x)));
+                        if here {
+                            if x < 128 && v4[k].len() < 2 {
+                                v4[k].push(x);
+                            }
+                            if x >= 128 && v6[k].is_empty() {
+                                v6[k].push(x);
+                            }
                         }
                     }
-                    if tab.iter().all(|v| v.len() == MAX_IDX) {
-                        break;
-                    }
                 }
-                assert!(tab.iter().all(|v| v.len() == MAX_IDX), "prefix table incomplete");
-                tab
+                assert!(v4.iter().all(|v| v.len() == 2) && v6.iter().all(|v| v.len() == 1), "prefix table incomplete");
+                (0..n).map(|k| vec![v4[k][0], v4[k][1], v6[k][0]]).collect()
             })
             .collect()
     });
@@ -298,17 +361,14 @@ fn prefix_table(n: usize) -> &'static Vec<Vec<u8>> {
 enum Park {
     Starting,
     Running,
-    AtOp,
-    AtRegistered,
     AtLock(usize),
-    AtLoaded,
+    Other,
     Finished,
 }
 
 struct ThState {
     park: Park,
     granted: bool,
-    held: Option<usize>,
     dirty: bool,
     panicked: bool,
 }
@@ -317,6 +377,12 @@ struct SchedState {
     th: Vec<ThState>,
     gran: u8,
     shard_addrs: Vec<usize>,
+    /// who really holds each shard mutex (from the ACQUIRED / UNLOCKED points of the real guard)
+    locked: Vec<Option<usize>>,
+    /// number of subscriptions registered and not unsubscribed
+    live_subs: usize,
+    /// a list loaded under a shard lock did not have the length of the subscriber list of that moment
+    stale_list: bool,
 }
 
 struct Sched {
@@ -325,54 +391,64 @@ struct Sched {
 }
 
 impl Sched {
-    /// Called by a worker at a scheduling point.  Decides (same rule as the Lean model) whether
-    /// the point is an actual yield; if so parks until the controller grants the next segment.
+    /// Called by a worker at a scheduling point.  Decides (same rule as the Lean model `active`)
+    /// whether the point is an actual yield; if so parks until the controller grants the next segment.
     fn point(&self, tid: usize, kind: u32, arg: usize) {
         let mut g = self.m.lock().unwrap();
         let gran = g.gran;
-        let shard = if kind == verif_sched::LOCK {
-            Some(g.shard_addrs.iter().position(|a| *a == arg).expect("unknown shard mutex"))
-        } else {
-            None
-        };
-        let st = &mut g.th[tid];
-        let (yields, park) = match kind {
-            OP => {
-                st.dirty = false;
-                st.held = None;
-                (true, Park::AtOp)
-            }
-            verif_sched::REGISTERED => {
-                st.dirty = false;
-                st.held = None;
-                (true, Park::AtRegistered)
+        let shard_of = |g: &SchedState, a: usize| g.shard_addrs.iter().position(|x| *x == a).expect("unknown shard mutex");
+        let mut park = Park::Other;
+        let yields = match kind {
+            OP | verif_sched::REGISTERED | verif_sched::NOTIFY => {
+                if kind == verif_sched::REGISTERED {
+                    g.live_subs += 1;
+                }
+                g.th[tid].dirty = false;
+                true
             }
             verif_sched::LOCK => {
-                st.held = None; // the previous shard guard (if any) has been dropped
-                (gran == 1 || st.dirty, Park::AtLock(shard.unwrap()))
+                let k = shard_of(&g, arg);
+                park = Park::AtLock(k);
+                let y = gran == 1 || g.th[tid].dirty;
+                g.th[tid].dirty = true;
+                y
             }
-            verif_sched::LOADED => (gran == 1, Park::AtLoaded),
-            _ => (false, Park::Running),
+            verif_sched::ACQUIRED => {
+                let k = shard_of(&g, arg);
+                g.locked[k] = Some(tid);
+                gran == 1
+            }
+            verif_sched::UNLOCKED => {
+                let k = shard_of(&g, arg);
+                g.locked[k] = None;
+                gran == 1
+            }
+            verif_sched::LOADED => {
+                if g.locked.iter().any(|h| *h == Some(tid)) && arg != g.live_subs {
+                    g.stale_list = true;
+                }
+                gran == 1
+            }
+            _ => false,
         };
         if yields {
-            st.park = park;
+            g.th[tid].park = park;
             self.cv.notify_all();
             while !g.th[tid].granted {
                 g = self.cv.wait(g).unwrap();
             }
             g.th[tid].granted = false;
         }
-        if let Some(k) = shard {
-            let st = &mut g.th[tid];
-            st.held = Some(k);
-            st.dirty = true;
-        }
+    }
+
+    fn unsubscribed(&self) {
+        let mut g = self.m.lock().unwrap();
+        g.live_subs = g.live_subs.saturating_sub(1);
     }
 
     fn finish(&self, tid: usize, panicked: bool) {
         let mut g = self.m.lock().unwrap();
         g.th[tid].park = Park::Finished;
-        g.th[tid].held = None;
         g.th[tid].panicked = panicked;
         self.cv.notify_all();
     }
@@ -382,8 +458,7 @@ impl Sched {
         let mut it = schedule.iter();
         let mut g = self.m.lock().unwrap();
         loop {
-            // wait until every thread is parked or finished
-            let deadline = std::time::Instant::now() + Duration::from_secs(20);
+            let deadline = std::time::Instant::now() + StdDuration::from_secs(20);
             while g.th.iter().any(|t| matches!(t.park, Park::Starting | Park::Running)) {
                 let now = std::time::Instant::now();
                 if now >= deadline {
@@ -395,11 +470,7 @@ impl Sched {
             let enabled: Vec<usize> = (0..g.th.len())
                 .filter(|&i| match g.th[i].park {
                     Park::Finished => false,
-                    Park::AtLock(k) => !g
-                        .th
-                        .iter()
-                        .enumerate()
-                        .any(|(j, u)| j != i && u.park == Park::AtLoaded && u.held == Some(k)),
+                    Park::AtLock(k) => g.locked[k].is_none(),
                     _ => true,
                 })
                 .collect();
@@ -415,16 +486,50 @@ impl Sched {
     }
 }
 
-// ---------------------------------------------------------------- workers
+// ---------------------------------------------------------------- the world
+fn peer_params(remote_addr: IpAddr) -> PeerParams {
+    PeerParams {
+        remote_addr,
+        remote_port: Global::BGP_PORT,
+        expected_remote_asn: 0,
+        local_asn: 0,
+        passive: true,
+        rs_client: false,
+        route_reflector: RouteReflectorConfig::default(),
+        delete_on_disconnected: false,
+        admin_down: false,
+        state: SessionState::Idle,
+        holdtime: PeerParams::DEFAULT_HOLD_TIME,
+        connect_retry_time: PeerParams::DEFAULT_CONNECT_RETRY_TIME,
+        multihop_ttl: None,
+        ttl_security: None,
+        password: None,
+        families: FnvHashMap::default(),
+        send_max: FnvHashMap::default(),
+        prefix_limits: FnvHashMap::default(),
+        graceful_restart: None,
+        llgr: None,
+        bfd_config: None,
+        neighbor_interface: None,
+        bind_interface: None,
+        export_policy: None,
+    }
+}
+
 struct SubRec {
     sub: Subscription,
     want: bool,
     live: bool,
 }
 
+enum SubKind {
+    Chan(SubRec),
+    Bmp(Serve),
+}
+
 struct ThreadOut {
     rets: Vec<&'static str>,
-    subs: Vec<SubRec>,
+    subs: Vec<SubKind>,
 }
 
 fn peer_up_data(p: usize) -> PeerUpData {
@@ -446,61 +551,126 @@ fn peer_up_data(p: usize) -> PeerUpData {
         received_open: open,
     }
 }
-fn peer_down_data(p: usize) -> PeerDownData {
-    PeerDownData {
-        peer_addr: peer_addr(p),
-        peer_asn: 65010 + p as u32,
-        peer_id: u32::from(Ipv4Addr::new(10, 0, 0, (p + 1) as u8)),
-        uptime: 0,
-        reason: packet::bmp::PeerDownReason::RemoteUnexpected,
+
+struct Writer {
+    tid: usize,
+    state: Arc<PeerState>,
+    context: Arc<std::sync::Mutex<PeerContext>>,
+    session: PeerSession,
+    counter: Arc<AtomicU64>,
+}
+
+impl Writer {
+    fn new_session(tid: usize, state: &Arc<PeerState>, context: &Arc<std::sync::Mutex<PeerContext>>, tables: &TableHandle) -> PeerSession {
+        let mut s = PeerSession::new_for_test(peer_addr(tid), context.clone(), tables.clone());
+        // the session shares the peer's PeerState with the global peer table, as PeerSession::new does
+        s.state = Arc::clone(state);
+        for f in FAMS {
+            s.source.insert(f, new_source(tid));
+        }
+        s
     }
 }
 
-fn run_ops(tid: usize, ops: &[Op], limit: u32, tables: &TableManager, sched: &Sched, tab: &[Vec<u8>]) -> ThreadOut {
+#[allow(clippy::too_many_arguments)]
+fn run_ops(
+    tid: usize,
+    ops: &[Op],
+    limit: u32,
+    tables: &TableHandle,
+    global: &GlobalHandle,
+    peer: Option<(Arc<PeerState>, Arc<std::sync::Mutex<PeerContext>>)>,
+    sched: &Sched,
+    tab: &[Vec<u8>],
+) -> ThreadOut {
     let mut out = ThreadOut { rets: Vec::new(), subs: Vec::new() };
-    // session objects (PeerSession::new creates a Source and fresh prefix counters per session)
-    let mut source = new_source(tid);
-    let mut counter = Arc::new(AtomicU64::new(0));
-    let nh = Some(bgp::Nexthop::V4(Ipv4Addr::new(10, 0, 0, (tid + 1) as u8)));
+    // PeerSession holds tokio timers: they need a runtime context to be created (never polled here)
+    static RT: OnceLock<tokio::runtime::Runtime> = OnceLock::new();
+    let rt = RT.get_or_init(|| tokio::runtime::Builder::new_current_thread().enable_all().build().unwrap());
+    let _enter = peer.as_ref().map(|_| rt.enter());
+    let mut w = peer.map(|(state, context)| {
+        let session = Writer::new_session(tid, &state, &context, tables);
+        Writer { tid, state, context, session, counter: Arc::new(AtomicU64::new(0)) }
+    });
+    let fams: Vec<Family> = FAMS.to_vec();
     for op in ops {
         sched.point(tid, OP, 0);
         let mut ret = "-";
         match op {
-            Op::Up => tables.peer_up(peer_up_data(tid)),
+            Op::Up => {
+                let w = w.as_mut().unwrap();
+                // apply_outputs, Established arm: session_addrs is published, then on_established -> peer_up
+                w.state.session_addrs.store(Some(Arc::new(SessionAddrs {
+                    local: "10.0.0.254:179".parse().unwrap(),
+                    remote_port: 10000,
+                })));
+                tables.peer_up(peer_up_data(tid));
+            }
             Op::Down | Op::GDown => {
-                // PeerSession teardown: unregister_peer, then peer_down (event/mod.rs)
-                if matches!(op, Op::Down) {
-                    tables.unregister_peer(peer_addr(tid), &[Family::IPV4], &[]);
-                } else {
-                    tables.unregister_peer(peer_addr(tid), &[], &[Family::IPV4]);
+                let w = w.as_mut().unwrap();
+                // apply_outputs, SessionDown arm
+                w.state.session_addrs.store(None);
+                if matches!(op, Op::GDown) {
+                    w.session.negotiated_gr = Some(NegotiatedGr {
+                        families: fams.clone(),
+                        restart_time: StdDuration::from_secs(3600),
+                        notification_enabled: false,
+                    });
                 }
-                sched.point(tid, OP, 0);
-                tables.peer_down(peer_down_data(tid));
-                source = new_source(tid);
-                counter = Arc::new(AtomicU64::new(0));
+                let disconnect = DisconnectInfo {
+                    role: w.session.role,
+                    remote_addr: w.session.remote_addr,
+                    export_map: ExportMap::default(),
+                    negotiated_gr: None,
+                    negotiated_llgr: None,
+                };
+                // the REAL teardown: eligibility, unregister_peer, peer_down
+                let _ = futures::executor::block_on(w.session.finish_session(
+                    crate::fsm::SessionDownReason::IoError,
+                    global,
+                    disconnect,
+                ));
+                // the next session: a new PeerSession with new Sources and prefix counters
+                w.session = Writer::new_session(tid, &w.state, &w.context, tables);
+                w.counter = Arc::new(AtomicU64::new(0));
             }
             Op::Ins(k, j, pid, a) => {
-                let net = packet::PathNlri { path_id: *pid, nlri: nlri_of_octet(tab[*k][*j]) };
-                let pl = if limit > 0 { Some((limit, counter.clone())) } else { None };
-                let exceeded = tables.insert_route(source.clone(), Family::IPV4, net, nh, attrs_of(*a), pl, 0);
+                let w = w.as_ref().unwrap();
+                let (f, nlri) = nlri_of(tab[*k][*j]);
+                let net = packet::PathNlri { path_id: *pid, nlri };
+                let pl = if limit > 0 { Some((limit, w.counter.clone())) } else { None };
+                let exceeded =
+                    tables.insert_route(w.session.source[&f].clone(), f, net, Some(nexthop_of(f, *a)), attrs_of(*a), pl, 0);
                 ret = if exceeded { "limit" } else { "ok" };
             }
             Op::Rem(k, j, pid) => {
-                let net = packet::PathNlri { path_id: *pid, nlri: nlri_of_octet(tab[*k][*j]) };
-                let pc = if limit > 0 { Some(counter.clone()) } else { None };
-                tables.remove_route(source.clone(), Family::IPV4, net, pc, 0);
+                let w = w.as_ref().unwrap();
+                let (f, nlri) = nlri_of(tab[*k][*j]);
+                let net = packet::PathNlri { path_id: *pid, nlri };
+                let pc = if limit > 0 { Some(w.counter.clone()) } else { None };
+                tables.remove_route(w.session.source[&f].clone(), f, net, pc, 0);
             }
-            Op::Sr => tables.soft_reset_in(peer_addr(tid)),
+            Op::Sr(p) => tables.soft_reset_in(peer_addr(*p)),
+            // every policy-assignment path of the daemon (grpc.rs set/add/delete policy assignment,
+            // Global::delete_policy) ends in this store
             Op::Pol(p) => tables.import_policy.store(policy_of(*p)),
-            Op::Purge => tables.drop_stale_families(peer_addr(tid), &[Family::IPV4]),
+            Op::Purge => tables.drop_stale_families(peer_addr(tid), &fams),
+            Op::DropFam => tables.drop_families(peer_addr(tid), &fams),
+            Op::Llgr => tables.mark_llgr_stale(peer_addr(tid), &fams),
+            Op::LPurge => tables.drop_llgr_stale_families(peer_addr(tid), &fams),
             Op::Sub(want) => {
                 let sub = tables.subscribe(*want);
-                out.subs.push(SubRec { sub, want: *want, live: true });
+                out.subs.push(SubKind::Chan(SubRec { sub, want: *want, live: true }));
             }
+            Op::Bmp => out.subs.push(SubKind::Bmp(Serve::start(tables.clone(), global.clone()))),
             Op::Unsub => {
-                if let Some(r) = out.subs.iter_mut().rev().find(|r| r.live) {
+                if let Some(r) = out.subs.iter_mut().rev().find_map(|s| match s {
+                    SubKind::Chan(r) if r.live => Some(r),
+                    _ => None,
+                }) {
                     tables.unsubscribe(r.sub.id);
                     r.live = false;
+                    sched.unsubscribed();
                 }
             }
         }
@@ -516,14 +686,20 @@ fn opt_t(v: Option<u64>) -> Term {
         None => Term::atom("none"),
     }
 }
+fn item_t(v: Option<u64>) -> Term {
+    v.map(Term::nat).unwrap_or_else(|| Term::atom("w"))
+}
 
 fn run_case(line: &str) -> Option<String> {
     let case = parse_case(line)?;
     let uni = universe(&case);
     let tab = prefix_table(case.nshards);
-    let key_of = |addr: &IpAddr, net: &packet::PathNlri| -> Option<usize> {
+    let key_of = |addr: &IpAddr, fam: Family, net: &packet::PathNlri| -> Option<usize> {
         let peer = peer_of(addr)?;
-        let x = octet_of(&net.nlri)?;
+        let (f, x) = prefix_no(&net.nlri)?;
+        if f != fam {
+            return None;
+        }
         let (mut shard, mut idx) = (None, None);
         for (k, row) in tab.iter().enumerate() {
             if let Some(j) = row.iter().position(|y| *y == x) {
@@ -535,27 +711,48 @@ fn run_case(line: &str) -> Option<String> {
         uni.iter().position(|u| *u == key)
     };
 
-    let tables = Arc::new(TableManager::new(case.nshards));
+    // the REAL global peer table with one configured peer per writer thread
+    let (tx, _rx) = mpsc::unbounded_channel();
+    let (bfd_tx, _bfd_rx) = mpsc::unbounded_channel();
+    let mut g = Global::new(tx, bfd_tx);
+    g.asn = 65001;
+    g.router_id = Ipv4Addr::new(1, 0, 0, 1);
+    let mut peers: Vec<Option<(Arc<PeerState>, Arc<std::sync::Mutex<PeerContext>>)>> = Vec::new();
+    for (tid, (writer, _)) in case.threads.iter().enumerate() {
+        if *writer {
+            g.add_peer(peer_params(peer_addr(tid)), None).ok()?;
+            let p = g.peers.get(&peer_addr(tid)).unwrap();
+            peers.push(Some((Arc::clone(&p.state), Arc::clone(&p.context))));
+        } else {
+            peers.push(None);
+        }
+    }
+    let global: GlobalHandle = Arc::new(tokio::sync::RwLock::new(g));
+    let tables: TableHandle = Arc::new(TableManager::new(case.nshards));
     let sched = Arc::new(Sched {
         m: Mutex::new(SchedState {
             th: (0..case.threads.len())
-                .map(|_| ThState { park: Park::Starting, granted: false, held: None, dirty: false, panicked: false })
+                .map(|_| ThState { park: Park::Starting, granted: false, dirty: false, panicked: false })
                 .collect(),
             gran: case.gran,
             shard_addrs: tables.shards.iter().map(|s| s as *const _ as usize).collect(),
+            locked: vec![None; case.nshards],
+            live_subs: 0,
+            stale_list: false,
         }),
         cv: Condvar::new(),
     });
     let mut handles = Vec::new();
     for (tid, (_, ops)) in case.threads.iter().enumerate() {
-        let (ops, tables, sched, limit) = (ops.clone(), tables.clone(), sched.clone(), case.limit);
+        let (ops, tables, global, sched, limit, peer) =
+            (ops.clone(), tables.clone(), global.clone(), sched.clone(), case.limit, peers[tid].clone());
         handles.push(std::thread::spawn(move || {
             let s2 = sched.clone();
             verif_sched::HOOK.with(|h| {
                 *h.borrow_mut() = Some(Box::new(move |kind, arg| s2.point(tid, kind, arg)));
             });
             let r = std::panic::catch_unwind(std::panic::AssertUnwindSafe(|| {
-                run_ops(tid, &ops, limit, &tables, &sched, tab)
+                run_ops(tid, &ops, limit, &tables, &global, peer, &sched, tab)
             }));
             verif_sched::HOOK.with(|h| *h.borrow_mut() = None);
             sched.finish(tid, r.is_err());
@@ -573,6 +770,29 @@ fn run_case(line: &str) -> Option<String> {
             _ => return Some("(panic)".into()),
         }
     }
+    if sched.m.lock().unwrap().stale_list {
+        return Some("(stale-subscriber-list)".into());
+    }
+
+    // BMP connections: let every serve process what is still in its channel, then close them
+    let nthreads = case.threads.len();
+    let mut wires: Vec<Vec<Vec<WireMsg>>> = Vec::new(); // per thread, per bmp subscription
+    let mut outs2 = Vec::new();
+    for o in outs {
+        let mut w = Vec::new();
+        let mut subs = Vec::new();
+        for s in o.subs {
+            match s {
+                SubKind::Bmp(sv) => {
+                    w.push(sv.finish());
+                    subs.push(None);
+                }
+                SubKind::Chan(r) => subs.push(Some(r)),
+            }
+        }
+        wires.push(w);
+        outs2.push((o.rets, subs));
+    }
 
     // final RIB
     let mut extra = 0u64;
@@ -583,16 +803,16 @@ fn run_case(line: &str) -> Option<String> {
         for f in t.rtable.families().collect::<Vec<_>>() {
             for r in t.rtable.iter_reach(f) {
                 rows_pre += 1;
-                match key_of(&r.source.remote_addr, &r.net) {
-                    Some(i) if f == Family::IPV4 => rib[i].0 = Some(val_of(&r.attr)),
-                    _ => extra += 1,
+                match key_of(&r.source.remote_addr, f, &r.net) {
+                    Some(i) => rib[i].0 = Some(val_of(&r.attr, r.nexthop)),
+                    None => extra += 1,
                 }
             }
             for r in t.rtable.iter_reach_post(f) {
                 rows_post += 1;
-                match key_of(&r.source.remote_addr, &r.net) {
-                    Some(i) if f == Family::IPV4 => rib[i].1 = Some(val_of(&r.attr)),
-                    _ => extra += 1,
+                match key_of(&r.source.remote_addr, f, &r.net) {
+                    Some(i) => rib[i].1 = Some(val_of(&r.attr, r.nexthop)),
+                    None => extra += 1,
                 }
             }
         }
@@ -600,8 +820,80 @@ fn run_case(line: &str) -> Option<String> {
 
     // subscriptions
     let mut subs_t = Vec::new();
-    for (tid, o) in outs.iter_mut().enumerate() {
-        for (nth, rec) in o.subs.iter_mut().enumerate() {
+    for (tid, (_, subs)) in outs2.iter_mut().enumerate() {
+        let mut bmp_iter = std::mem::take(&mut wires[tid]).into_iter();
+        for (nth, rec) in subs.iter_mut().enumerate() {
+            let Some(rec) = rec else {
+                // ---- a BMP connection: decode what the real serve wrote
+                let msgs = bmp_iter.next().unwrap();
+                let mut whist: Vec<(Vec<Term>, Vec<Term>)> = vec![(Vec::new(), Vec::new()); uni.len()];
+                let mut wctl: Vec<Vec<Term>> = vec![Vec::new(); nthreads];
+                for m in msgs {
+                    if m.bad {
+                        return Some("(bad-wire)".into());
+                    }
+                    if m.ty == 4 || m.ty == 5 {
+                        continue;
+                    }
+                    let Some(addr) = m.addr else { return Some("(bad-wire)".into()) };
+                    let Some(p) = peer_of(&addr).filter(|p| *p < nthreads && m.peer_type == 0) else {
+                        extra += 1;
+                        continue;
+                    };
+                    match m.ty {
+                        3 => wctl[p].push(Term::tag("up", vec![Term::nat(p as u64)])),
+                        2 => {
+                            wctl[p].push(Term::tag("down", vec![Term::nat(p as u64)]));
+                            for (i, k) in uni.iter().enumerate() {
+                                if k.peer == p {
+                                    whist[i].0.push(Term::atom("d"));
+                                    whist[i].1.push(Term::atom("d"));
+                                }
+                            }
+                        }
+                        0 => {
+                            let post = m.flags & 0x40 != 0;
+                            for u in m.updates {
+                                let (fam, entries, v) = match u {
+                                    bgp::Message::Update(bgp::Update::Reach { family, entries, nexthop, attr }) => {
+                                        (family, entries, Some(val_of(&attr, nexthop)))
+                                    }
+                                    bgp::Message::Update(bgp::Update::Unreach { family, entries }) => (family, entries, None),
+                                    bgp::Message::Update(bgp::Update::EndOfRib(_)) => continue,
+                                    _ => {
+                                        extra += 1;
+                                        continue;
+                                    }
+                                };
+                                for n in &entries {
+                                    match key_of(&addr, fam, n) {
+                                        Some(i) => {
+                                            if post {
+                                                whist[i].1.push(item_t(v))
+                                            } else {
+                                                whist[i].0.push(item_t(v))
+                                            }
+                                        }
+                                        None => extra += 1,
+                                    }
+                                }
+                            }
+                        }
+                        _ => extra += 1,
+                    }
+                }
+                subs_t.push(Term::tag(
+                    "bmp",
+                    vec![
+                        Term::nat(tid as u64),
+                        Term::nat(nth as u64),
+                        Term::tag("whist", whist.into_iter().map(|(a, b)| Term::list(vec![Term::list(a), Term::list(b)])).collect()),
+                        Term::tag("wctl", wctl.into_iter().map(Term::list).collect()),
+                    ],
+                ));
+                continue;
+            };
+            // ---- a channel subscription
             let mut ctl: Vec<Term> = Vec::new();
             let mut fwd: Vec<Term> = Vec::new();
             let mut hist: Vec<(Vec<Term>, Vec<Term>)> = vec![(Vec::new(), Vec::new()); uni.len()];
@@ -612,12 +904,10 @@ fn run_case(line: &str) -> Option<String> {
             while let Ok(ev) = rec.sub.rx.try_recv() {
                 match ev {
                     BgpEvent::AdjRibIn(c) => {
-                        let v = c.attrs.as_ref().map(|a| val_of(a));
+                        let v = c.attrs.as_ref().map(|a| val_of(a, c.nexthop));
                         for n in &c.nlris {
-                            match key_of(&c.source.remote_addr, n) {
-                                Some(i) if c.family == Family::IPV4 => {
-                                    hist[i].0.push(v.map(Term::nat).unwrap_or_else(|| Term::atom("w")))
-                                }
+                            match key_of(&c.source.remote_addr, c.family, n) {
+                                Some(i) if !c.addpath => hist[i].0.push(item_t(v)),
                                 _ => extra += 1,
                             }
                         }
@@ -626,12 +916,10 @@ fn run_case(line: &str) -> Option<String> {
                         }
                     }
                     BgpEvent::AdjRibInPost(c) => {
-                        let v = c.attrs.as_ref().map(|a| val_of(a));
+                        let v = c.attrs.as_ref().map(|a| val_of(a, c.nexthop));
                         for n in &c.nlris {
-                            match key_of(&c.source.remote_addr, n) {
-                                Some(i) if c.family == Family::IPV4 => {
-                                    hist[i].1.push(v.map(Term::nat).unwrap_or_else(|| Term::atom("w")))
-                                }
+                            match key_of(&c.source.remote_addr, c.family, n) {
+                                Some(i) if !c.addpath => hist[i].1.push(item_t(v)),
                                 _ => extra += 1,
                             }
                         }
@@ -642,10 +930,8 @@ fn run_case(line: &str) -> Option<String> {
                     BgpEvent::PeerUp(d) => match peer_of(&d.peer_addr) {
                         Some(p) => {
                             ctl.push(Term::tag("up", vec![Term::nat(p as u64)]));
-                            if !rec.want || seen_eos {
-                                if !wire.get_or_insert_with(Wire::new).peer_up(d) {
-                                    fwd.push(Term::atom("io-error"));
-                                }
+                            if (!rec.want || seen_eos) && !wire.get_or_insert_with(Wire::new).peer_up(d) {
+                                fwd.push(Term::atom("io-error"));
                             }
                         }
                         None => extra += 1,
@@ -659,7 +945,10 @@ fn run_case(line: &str) -> Option<String> {
                                     hist[i].1.push(Term::atom("d"));
                                 }
                             }
-                            if (!rec.want || seen_eos) && !wire.get_or_insert_with(Wire::new).peer_down(d) {
+                            if rec.want && !seen_eos {
+                                // serve's snapshot phase (transcribed dispatch): the peer's buffered routes are dropped
+                                consumer.drop_peer(d.peer_addr);
+                            } else if !wire.get_or_insert_with(Wire::new).peer_down(d) {
                                 fwd.push(Term::atom("io-error"));
                             }
                         }
@@ -693,15 +982,15 @@ fn run_case(line: &str) -> Option<String> {
                 }
             }
             let mut snap: Vec<(Option<u64>, Option<u64>)> = vec![(None, None); uni.len()];
-            for (addr, net, attrs) in consumer.dump_pre() {
-                match key_of(&addr, &net) {
-                    Some(i) => snap[i].0 = Some(val_of(&attrs)),
+            for (addr, fam, net, attrs, nh) in consumer.dump_pre() {
+                match key_of(&addr, fam, &net) {
+                    Some(i) => snap[i].0 = Some(val_of(&attrs, nh)),
                     None => extra += 1,
                 }
             }
-            for (addr, net, attrs) in consumer.dump_post() {
-                match key_of(&addr, &net) {
-                    Some(i) => snap[i].1 = Some(val_of(&attrs)),
+            for (addr, fam, net, attrs, nh) in consumer.dump_post() {
+                match key_of(&addr, fam, &net) {
+                    Some(i) => snap[i].1 = Some(val_of(&attrs, nh)),
                     None => extra += 1,
                 }
             }
@@ -723,9 +1012,9 @@ fn run_case(line: &str) -> Option<String> {
             ));
         }
     }
-    let rets = outs
+    let rets = outs2
         .iter()
-        .map(|o| Term::list(o.rets.iter().map(|r| Term::atom(*r)).collect()))
+        .map(|(r, _)| Term::list(r.iter().map(|r| Term::atom(*r)).collect()))
         .collect();
     Some(
         Term::tag(
@@ -753,7 +1042,9 @@ fn verif_main() {
         return;
     }
     // a panic inside a worker thread is an observation; keep stderr readable
-    std::panic::set_hook(Box::new(|_| {}));
+    if std::env::var("VERIF_C18_DEBUG").is_err() {
+        std::panic::set_hook(Box::new(|_| {}));
+    }
     sexp::run_lines(&inp, &out, |l| {
         let l = l.to_string();
         std::panic::catch_unwind(move || run_case(&l).unwrap_or_else(|| "(bad-case)".into()))
